@@ -36,6 +36,41 @@ def r1(ctx: Ctx) -> None:
             ctx.check(all(evs.index(x) > evs.index(good[0]) for x in t), f, good[0].node, f"{b.phase} {b.kind}: the owner is told before the after-hook runs", "callback precedes trigger", "trigger first")
 
 
+def _zip_parties_ok(ctx: Ctx, path, zl):
+    """zip(logs, P): P is what the holdings update returned for these very logs, and that is one
+    (buyer, seller) pair per log, looked up from the log's own ids, in order"""
+    from ..kit import seq_value
+
+    if len(zl.iter[2]) != 2 or len(zl.target) != 3:
+        return None
+    P = zl.iter[2][1]
+    upd = [e for e in path.events if e.kind == "call" and calls_target(e, UPD) and e.term == P]
+    if len(upd) != 1 or kw(upd[0], "execution_logs", 0) != zl.iter[2][0]:
+        return None
+    sim = ("sym", "self")
+    for hp in ctx.paths(UPD):
+        if hp.exit[0] != "return":
+            continue
+        sv = seq_value(hp, hp.exit[1]) if hp.exit[1] is not None else None
+        if sv is None:
+            # built in the loop over the logs, but not on every iteration?
+            for l_ in loops(hp):
+                if key(strip_ver(l_.iter)) == "execution_logs":
+                    app = [any(e.name == "append" and e.recv == hp.exit[1] for e in calls(bp_, into_loops=False)) for bp_ in l_.paths if bp_.exit[0] != "raise"]
+                    if app and any(app) and not all(app):
+                        return False
+            return None
+        if sv[0] == "comp" and len(sv[3]) == 1 and sv[3][0][2] and key(sv[3][0][1]) == "execution_logs":
+            return False  # filtered: fewer pairs than fills
+        if sv[0] != "comp" or len(sv[3]) != 1 or len(sv[3][0][0]) != 1 or key(sv[3][0][1]) != "execution_logs":
+            return None
+        lb = ("bound", sv[3][0][0][0])
+        want = ("tuple", (("sub", ("attr", sim, "id2agent"), ("attr", lb, "buy_agent_id")), ("sub", ("attr", sim, "id2agent"), ("attr", lb, "sell_agent_id"))))
+        if strip_ver(sv[2]) != want:
+            return None
+    return True
+
+
 @rule("C11.R2", "for every fill of the round the buyer and the seller are each told exactly once, with that fill's record", "T4 exactly-once per loop iteration", floor=4)
 def r2(ctx: Ctx) -> None:
     f = ctx.func(HO)
@@ -49,6 +84,25 @@ def r2(ctx: Ctx) -> None:
             continue
         n += 1
         lps = [l for l in loops(b.path) if l.iter == ex[0].term]
+        zipped = [l for l in loops(b.path) if l.iter is not None and l.iter[0] == "call" and key(l.iter[1]) == "zip" and l.iter[2] and l.iter[2][0] == ex[0].term]
+        if not lps and len(zipped) == 1:
+            # for log, (buyer, seller) in zip(logs, <pairs returned by the holdings update>)
+            zl = zipped[0]
+            zok = _zip_parties_ok(ctx, b.path, zl)
+            if zok is False:
+                ctx.violated(f, zl.node, f"{b.phase} {b.kind}: buyer and seller of each fill are told once each", "one (buyer, seller) pair per fill, in the order of the fills", "the holdings update does not return a pair for every fill (some iterations skip the append): zip() pairs later fills with the wrong agents and drops the last ones")
+                continue
+            if zok:
+                el = ("sym", f"{zl.target[0]}∈{zl.loopid}")
+                pb, ps_ = (("sym", f"{zl.target[1]}∈{zl.loopid}"), ("sym", f"{zl.target[2]}∈{zl.loopid}"))
+                for bp in zl.paths:
+                    cbs = [e for e in calls(bp) if e.name == "executed_order"]
+                    got_r = sorted(short(strip_ver(e.recv)) for e in cbs if kw(e, "log", 0) == el and e.recv is not None)
+                    ok = len(cbs) == 2 and got_r == sorted([short(pb), short(ps_)]) and not bp.conds and bp.exit[0] == "fall"
+                    ctx.check(ok, f, zl.node, f"{b.phase} {b.kind}: buyer and seller of each fill are told once each", "buyer.executed_order(log), seller.executed_order(log) with the pair resolved for that very fill", "; ".join(f"{short(e.recv)}.executed_order(log={short(kw(e, 'log', 0))})" for e in cbs) or "none")
+            else:
+                ctx.unrec(f, zl.node, f"{b.phase} {b.kind}: buyer and seller of each fill are told once each", "fills are walked together with a second sequence whose relation to the fills is not modelled", short(zl.iter)[:160])
+            continue
         ctx.check(len(lps) == 1, f, ex[0].node, f"{b.phase} {b.kind}: one pass over the round's fills", "for log in <result of _execution()>", f"{len(lps)} loop(s)")
         for l in lps:
             el = ("sym", f"{l.target[0]}∈{l.loopid}")
